@@ -488,6 +488,15 @@ func (n *npCtx) noteAtom(a string, v ssa.Value) {
 		return
 	}
 	n.atoms[a] = v
+	// a load of an integer struct field that is never written a negative value (unexported field,
+	// every store in the package proven ≥ 0, address never taken for other purposes)
+	if u, ok := v.(*ssa.UnOp); ok && u.Op == token.MUL {
+		if fa, ok := u.X.(*ssa.FieldAddr); ok {
+			if fld := fieldObj(fa.X.Type(), fa.Field); fld != nil && n.c.nonNegField(fld) {
+				n.addLe(lin{"", 0}, lin{a, 0})
+			}
+		}
+	}
 	switch x := v.(type) {
 	case *ssa.Call:
 		if arg, ok := isLenCall(x); ok {
@@ -2068,4 +2077,64 @@ func (c *Ctx) verdictOrigins(cal *ssa.Function, verdict bool) ([][]vfact, bool) 
 		origin(ret.Results[0], ret.Block(), nil, 0)
 	}
 	return out, true
+}
+
+// nonNegField: an unexported integer field of a package type that holds a non-negative value at all times:
+// its zero value is 0, every store to it anywhere in the package is proven ≥ 0 (assuming the invariant for
+// the loads those proofs use — induction over the writers), and its address is used only to load and store.
+func (c *Ctx) nonNegField(fld *types.Var) bool {
+	if c.nonNegMemo == nil {
+		c.nonNegMemo = map[*types.Var]int{}
+	}
+	switch c.nonNegMemo[fld] {
+	case 1, 3:
+		return true // proven, or being proven (inductive hypothesis)
+	case 2:
+		return false
+	}
+	bt, ok := fld.Type().Underlying().(*types.Basic)
+	if !ok || bt.Info()&types.IsInteger == 0 || bt.Info()&types.IsUnsigned != 0 || fld.Exported() || fld.Pkg() != c.Types {
+		c.nonNegMemo[fld] = 2
+		return false
+	}
+	c.nonNegMemo[fld] = 3
+	okAll := true
+	c.eachInstr(func(fn *ssa.Function, in ssa.Instruction) {
+		fa, isFA := in.(*ssa.FieldAddr)
+		if !isFA || !okAll || fieldObj(fa.X.Type(), fa.Field) != fld {
+			return
+		}
+		refs := fa.Referrers()
+		if refs == nil {
+			return
+		}
+		for _, r := range *refs {
+			switch x := r.(type) {
+			case *ssa.UnOp, *ssa.DebugRef:
+			case *ssa.Store:
+				if x.Addr != ssa.Value(fa) {
+					okAll = false // the address itself is stored
+					return
+				}
+				if k, isC := constInt(x.Val); isC {
+					if k < 0 {
+						okAll = false
+					}
+					continue
+				}
+				st := x
+				if !c.npProve(st, c.newFacts(fn), func(n *npCtx) bool { return n.provesLe(lin{"", 0}, n.linOf(st.Val)) }) {
+					okAll = false
+				}
+			default:
+				okAll = false // the address escapes
+			}
+		}
+	})
+	if okAll {
+		c.nonNegMemo[fld] = 1
+	} else {
+		c.nonNegMemo[fld] = 2
+	}
+	return okAll
 }
